@@ -73,9 +73,12 @@ def run_batches(ctx, case_strategy, judge, n_examples, batch, shrink_budget_s=No
         test()
     except Failed:
         pass
-    except hypothesis.errors.Flaky:
-        pass
+    except hypothesis.errors.Flaky as e:
+        print("note: hypothesis reported Flaky: %s" % str(e)[:300])
+        if state["best"] is None:
+            raise
     except BaseException as e:  # hypothesis may wrap
+        print("note: hypothesis raised %s: %s" % (type(e).__name__, str(e)[:300]))
         if state["best"] is None:
             raise
     if state["best"] is not None:
